@@ -202,6 +202,14 @@ pub fn run(tier: Tier) -> Report {
         let small: &[&str] = &["", "x", "E1()", "x, \"msg\"", "EF(), E1()", "...", "t.k, EI(2)"];
         assert_seeds.extend(mk(combined_programs("assert", "assert", small), "two assert calls"));
     }
+    // functions of the same name that are fields of another table are not the targets
+    assert_seeds.extend(mk(
+        vec![
+            prog("local o = {assert = EI}\no.assert(false, \"m\")\nreturn o.assert(nil, 1), t.assert"),
+            prog("local o = {assert = EI}\nreturn o:assert(2), (o).assert(false)"),
+        ],
+        "same name on another table",
+    ));
     // the program's own throw-away name `_` around a removed call whose argument is kept
     assert_seeds.extend(mk(
         vec![
@@ -249,6 +257,15 @@ pub fn run(tier: Tier) -> Report {
             let other = if target == "debug.profilebegin" { "debug.profileend" } else { "debug.profilebegin" };
             seeds.extend(mk(combined_programs(target, other, small), "two profiling calls"));
             seeds.extend(mk(combined_programs(target, target, small), "two profiling calls"));
+            let field = target.rsplit('.').next().unwrap_or("");
+            seeds.extend(mk(
+                vec![
+                    prog(&format!("local Timer = {{{f} = EI}}\nTimer.{f}(\"x\")\nreturn Timer.{f}(1)", f = field)),
+                    prog(&format!("local lib = {{debug = {{{f} = EI}}}}\nlib.debug.{f}(\"l\")\nreturn lib.debug.{f}(2)", f = field)),
+                    prog(&format!("local o = {{{f} = EI}}\nreturn o:{f}(3), t.{f}", f = field)),
+                ],
+                "same name on another table",
+            ));
             seeds.extend(mk(
                 vec![
                     prog(&format!("local _ = E1(1)\n{}(m.k)\nE1(_)\nreturn _", target)),
